@@ -589,6 +589,34 @@ def _entry_name(fn):
     return name.replace('<locals>.', '').replace('<lambda>', 'lambda')
 
 
+def _fresh(obj, memo, depth=0):
+    """new array objects with the same content; everything that is not data
+    (modules, functions, trainers, aligners ...) is passed on as it is"""
+    if id(obj) in memo:
+        return memo[id(obj)]
+    if depth > 5:
+        return obj
+    if isinstance(obj, np.ndarray):
+        new = obj.copy(order='K')
+    elif isinstance(obj, dict):
+        new = {k: _fresh(v, memo, depth + 1) for k, v in obj.items()}
+    elif isinstance(obj, list):
+        new = [_fresh(v, memo, depth + 1) for v in obj]
+    elif isinstance(obj, tuple) and not hasattr(obj, '_fields'):
+        new = tuple(_fresh(v, memo, depth + 1) for v in obj)
+    elif (dataclasses.is_dataclass(obj) and not isinstance(obj, type)) or (
+            type(obj).__module__.startswith('pbv') and hasattr(obj, '__dict__')
+            and not callable(obj)):
+        import copy
+        new = copy.copy(obj)
+        for k, v in list(vars(obj).items()):
+            object.__setattr__(new, k, _fresh(v, memo, depth + 1))
+    else:
+        new = obj
+    memo[id(obj)] = new
+    return new
+
+
 class PurityCtx:
     """stands in for core.Ctx while a host sub-check runs"""
 
@@ -655,6 +683,7 @@ class PurityCtx:
         r1 = Ctx.lib(self.real, fn, *args, allow=allow, allow_if=allow_if,
                      clause=clause, **kwargs)
         unchanged('writable arguments')
+        snapshot = _fresh(canon(r1), {})
         after_state = np.random.get_state()
         np.random.set_state(state)
         for a, *_, w in before:
@@ -681,7 +710,81 @@ class PurityCtx:
         if not same(canon(r1), canon(r2)):
             raise PurityViolation('repeated-call-differs',
                                   f'{name} (host {self.host})', entry=name)
+        if self.array_calls % 2 == 0:
+            self._refilled_buffer(fn, args, kwargs, before[:n_passed], state, name)
+            np.random.set_state(after_state)
+        # what the first call returned is the caller's: later calls (with the
+        # same or other content) must not have changed it
+        if not same(canon(r1), snapshot):
+            raise PurityViolation('earlier-result-changed-by-a-later-call',
+                                  f'{name} (host {self.host})', entry=name)
         return r1
+
+    def _refilled_buffer(self, fn, args, kwargs, passed, state, name):
+        """results are a function of the argument *values*: a caller's array
+        that is refilled in place between two calls must give what a fresh
+        array with the same content gives (no identity-keyed caches).  One
+        passed floating point array is overwritten in place (reversed along
+        its first axis, or scaled by 1.5), the call is repeated with the very
+        same objects and with deep copies of all arguments (closure cells of
+        the host's lambda included); outcomes must agree.  Whether the new
+        content is meaningful input does not matter - both calls see it."""
+        import copy
+        import pb_bss._verif as hook
+        cands = [a for a, _, _, _, w in passed
+                 if w and a.dtype.kind in 'fc' and a.ndim >= 1 and a.size >= 2]
+        if not cands:
+            return
+        pick = cands[(self.array_calls // 2) % len(cands)]
+        saved = pick.copy()
+        if (self.array_calls // 2) % 3 == 2 or pick.shape[0] < 2:
+            pick *= 1.5
+        else:
+            pick[...] = pick[::-1].copy()
+        if np.array_equal(pick, saved):
+            pick[...] = saved
+            return
+
+        def outcome(f, a, k):
+            np.random.set_state(state)
+            try:
+                # (a snapshot: the result may alias the argument that is
+                # restored afterwards)
+                return ('ok', _fresh(canon(f(*a, **k)), {}))
+            except Exception as e:  # noqa
+                return ('raises', type(e).__name__)
+
+        data_types = (np.ndarray, list, tuple, dict)
+        cells = [c for c in (getattr(fn, '__closure__', None) or ())]
+        old_cells = []
+        hook_enabled, hook.ENABLED = hook.ENABLED, False
+        try:
+            same_objects = outcome(fn, args, kwargs)
+            memo = {}
+            fresh_args = _fresh(args, memo)
+            fresh_kwargs = _fresh(kwargs, memo)
+            for c in cells:
+                try:
+                    v = c.cell_contents
+                except ValueError:
+                    continue
+                new = _fresh(v, memo)
+                if new is not v:
+                    old_cells.append((c, v))
+                    c.cell_contents = new
+            fresh_objects = outcome(fn, fresh_args, fresh_kwargs)
+        finally:
+            for c, v in old_cells:
+                c.cell_contents = v
+            hook.ENABLED = hook_enabled
+            pick[...] = saved
+        self.refilled = getattr(self, 'refilled', 0) + 1
+        if same_objects[0] != fresh_objects[0] or not same(same_objects[1], fresh_objects[1]):
+            raise PurityViolation(
+                'result-depends-on-array-identity-not-content',
+                f'{name}: after refilling an argument array in place the call returns '
+                f'{same_objects[0]} / a fresh array with the same content {fresh_objects[0]} '
+                f'with different values (host {self.host})', entry=name)
 
 
 _HOSTS = None
@@ -749,6 +852,8 @@ def purity_at_call_sites(d, ctx):
                  calls_with_arrays=pctx.array_calls,
                  entries=sorted(pctx.entries)[:12], host_verdict=verdict)
     ctx.label('host=' + pid, verdict)
+    if getattr(pctx, 'refilled', 0):
+        ctx.label('refilled-buffer-protocol')
     ctx.nontrivial(pctx.array_calls > 0)
 
 
